@@ -18,10 +18,10 @@ RULE = ("case = (driver: 1-d Levy model or 2-d Levy copula, coefficient in {Cons
         "path; or (rate model | Levy model | exponential model, tenor structure, rates): df on a 2000-point mesh + points around "
         "every tenor; non-trivial = driver path with >= 2 steps; distinct = distinct seed")
 ASSUMPTIONS = ["coefficient functions and the SDE drift are evaluated through the model's own callables; the recursion itself is the harness's",
-               "copula drivers with finite-variation margins (no nested quadrature at construction)",
+               "copula drivers in dimension 2 (finite and infinite variation); the Libor model with independent components is refused by the library (NotImplementedError: no copula density)",
                "df is explored on [0, last tenor]"]
 REQUIRED_COUNTERS = ["single_paths", "coupled_paths", "constant_closed_form", "diagonal_closed_form", "df_meshes", "epsilon_checks",
-                     "copula_driver_cases"]
+                     "copula_driver_cases", "libor_copula_driver_cases"]
 MIN_NONTRIVIAL = {"quick": 40, "thorough": 500}
 SHARD_TIMEOUT = {"quick": 900, "thorough": 7200}
 
@@ -188,8 +188,7 @@ def _sde(case, R):
             else:
                 model = LevyLiborModel(libor_rates=rates, tenors=tenors, sigma=sigma, driver=driver)
                 if d > 1:
-                    R.skip("Libor model with a copula driver needs a nested quadrature (minutes): not run")
-                    return
+                    R.hit("libor_copula_driver_cases")
     except Exception as exc:  # noqa: BLE001
         R.violation(f"sde-model-constructor-raises-{coef}", f"{type(exc).__name__}: {exc}", wit)
         return
@@ -207,6 +206,9 @@ def _sde(case, R):
         proc = cls(model=model, method=meth, grid=grid)
         proc.initialisation(product)
         proc.pre_computation(4, product)
+    except NotImplementedError as exc:
+        R.skip(f"not-implemented-by-the-library ({tag}): {exc}")      # an explicit refusal (e.g. no copula density for independent components)
+        return
     except Exception as exc:  # noqa: BLE001
         R.violation(f"sde-process-setup-raises-{tag}", f"{type(exc).__name__}: {exc}", wit)
         return
